@@ -15,8 +15,10 @@ HOSTILE_STRINGS = [
 
 
 class Ty:
-    def __init__(self, rust, gen, kind, params=None, sub=()):
-        self.rust = rust
+    def __init__(self, rust, gen, kind, params=None, sub=(), concrete=None, trait_rust=None):
+        self.rust = rust                      # spelling in the contract impl / interface impl
+        self.concrete = concrete or rust      # spelling with every generic parameter substituted (glue)
+        self.trait_rust = trait_rust or rust  # spelling inside an interface trait (`Self::Assoc`)
         self._gen = gen
         self.kind = kind
         self.sub = tuple(sub)
@@ -134,22 +136,26 @@ SCALARS = [BOOL, U8, U32, U64, I32, I64, STRING, UINT128, ADDR, BINARY, COIN, PT
 
 
 def option(t):
-    return Ty(f"Option<{t.rust}>", lambda r, d: None if r.random() < 0.3 else t.gen(r, d + 1), "option", sub=(t,))
+    return Ty(f"Option<{t.rust}>", lambda r, d: None if r.random() < 0.3 else t.gen(r, d + 1), "option", sub=(t,),
+              concrete=f"Option<{t.concrete}>", trait_rust=f"Option<{t.trait_rust}>")
 
 
 def vec(t):
-    return Ty(f"Vec<{t.rust}>", lambda r, d: [t.gen(r, d + 1) for _ in range(r.choice([0, 1, 2, 3]))], "vec", sub=(t,))
+    return Ty(f"Vec<{t.rust}>", lambda r, d: [t.gen(r, d + 1) for _ in range(r.choice([0, 1, 2, 3]))], "vec", sub=(t,),
+              concrete=f"Vec<{t.concrete}>", trait_rust=f"Vec<{t.trait_rust}>")
 
 
 def tup(t, u):
-    return Ty(f"({t.rust}, {u.rust})", lambda r, d: [t.gen(r, d + 1), u.gen(r, d + 1)], "tuple", sub=(t, u))
+    return Ty(f"({t.rust}, {u.rust})", lambda r, d: [t.gen(r, d + 1), u.gen(r, d + 1)], "tuple", sub=(t, u),
+              concrete=f"({t.concrete}, {u.concrete})", trait_rust=f"({t.trait_rust}, {u.trait_rust})")
 
 
 def btmap(t):
     def g(r, d):
         ks = r.sample(["k", "a", "zz", "K", "0", "with space"], r.choice([0, 1, 2, 3]))
         return {k: t.gen(r, d + 1) for k in sorted(ks)}
-    return Ty(f"std::collections::BTreeMap<String, {t.rust}>", g, "map", sub=(t,))
+    return Ty(f"std::collections::BTreeMap<String, {t.rust}>", g, "map", sub=(t,),
+              concrete=f"std::collections::BTreeMap<String, {t.concrete}>", trait_rust=f"std::collections::BTreeMap<String, {t.trait_rust}>")
 
 
 def random_type(rng, depth=0):
@@ -225,3 +231,29 @@ def _non_option(rng, depth):
         if t.kind != "option":
             return t
     return U32
+
+
+def generic_param(name, concrete_ty):
+    """A contract type parameter `name`, instantiated with `concrete_ty` in the glue."""
+    t = Ty(name, lambda r, d: concrete_ty.gen(r, d), "generic", concrete=concrete_ty.concrete)
+    t.param = name
+    return t
+
+
+def assoc_type(name, concrete_ty):
+    """An interface associated type: `Self::name` in the trait, the bound concrete type elsewhere."""
+    t = Ty(concrete_ty.rust, lambda r, d: concrete_ty.gen(r, d), "assoc", concrete=concrete_ty.concrete, trait_rust=f"Self::{name}")
+    t.param = name
+    return t
+
+
+def params_in(ty):
+    """Names of generic parameters / associated types occurring in a type (in order of occurrence)."""
+    out = []
+    if getattr(ty, "param", None):
+        out.append(ty.param)
+    for s in ty.sub:
+        for n in params_in(s):
+            if n not in out:
+                out.append(n)
+    return out
